@@ -251,9 +251,8 @@ def _process_block_line(
 
 def _handle_block_end(line_num: int, violation: "Violation", state: _BlockState) -> bool | None:
     """Handle block end marker."""
-    if state.in_block and line_num > violation.line:
-        if rules_match_violation(state.rules, violation.rule_id):
-            return True
+    # A violation inside the block was already decided on its own line (see _process_block_line);
+    # reaching the end marker means the violation lies outside this block.
     state.in_block = False
     state.rules = set()
     return None
